@@ -183,6 +183,19 @@ def gen_tight_spec(rng):
     return {"rxns": rxns, "obj": {}, "dir": "max", "groups": [], "extra_mets": []}
 
 
+def pick_list(rng, rids):
+    """None (all reactions), a random subset, a single reaction (often the only one asked for carries flux in the first solution, so that
+    nothing is left for the FVA), or the empty list."""
+    k = rng.random()
+    if k < 0.5:
+        return None
+    if k < 0.75:
+        return rng.sample(rids, rng.randint(1, len(rids)))
+    if k < 0.93:
+        return [rng.choice(rids)]
+    return []
+
+
 def gen_case(rng):
     if rng.random() < 0.1:
         return {"kind": "fastcc", "spec": gen_tight_spec(rng), "pre": None, "open_exchanges": False}
@@ -194,7 +207,7 @@ def gen_case(rng):
                           for r in rng.sample(rids, rng.randint(1, min(2, len(rids))))}}
     if rng.random() < 0.7:
         return {"kind": "blocked", "spec": spec, "pre": pre, "open_exchanges": rng.random() < 0.35,
-                "reaction_list": rng.sample(rids, rng.randint(1, len(rids))) if rng.random() < 0.4 else None, "as_objects": rng.random() < 0.5}
+                "reaction_list": pick_list(rng, rids), "as_objects": rng.random() < 0.5}
     return {"kind": "fastcc", "spec": spec, "pre": pre, "open_exchanges": False}
 
 
@@ -226,6 +239,91 @@ def aux_stage(ctx):
     return cases
 
 
+def loop_trace(m):
+    """Run the real fastcc on `m` and record every solve it makes: which reactions `_find_sparse_mode` was given and what it answered, which
+    reactions `_flip_coefficients` flipped and which reactions carried flux in the solve after it."""
+    import importlib
+    fc = importlib.import_module("cobra.flux_analysis.fastcc")      # the attribute of the package is the function
+    from cobra.core.model import Model as CModel
+    idx = {r.id: i for i, r in enumerate(m.reactions)}
+    ev = {"calls": [], "depth": 0, "flip": None}
+    orig_sparse, orig_flip, orig_opt = fc._find_sparse_mode, fc._flip_coefficients, CModel.optimize
+    cutoff = m.tolerance
+
+    def sparse(model, rxns, flux_threshold, zero_cutoff):
+        ev["depth"] += 1
+        try:
+            res = orig_sparse(model, rxns, flux_threshold, zero_cutoff)
+        finally:
+            ev["depth"] -= 1
+        if rxns:
+            ev["calls"].append({"j": sorted(idx[r.id] for r in rxns), "flipped": False, "ans": sorted(idx[r.id] for r in res)})
+        return res
+
+    def flip(model, rxns):
+        ev["flip"] = sorted(idx[r.id] for r in rxns)
+        return orig_flip(model, rxns)
+
+    def optimize(self, *a, **k):
+        sol = orig_opt(self, *a, **k)
+        if ev["depth"] == 0 and ev["flip"] is not None:
+            ev["calls"].append({"j": ev["flip"], "flipped": True, "ans": sorted(idx[r] for r in sol.fluxes.index[sol.fluxes.abs() > cutoff] if r in idx)})
+            ev["flip"] = None
+        return sol
+    fc._find_sparse_mode, fc._flip_coefficients, CModel.optimize = sparse, flip, optimize
+    try:
+        cm = fc.fastcc(m)
+    finally:
+        fc._find_sparse_mode, fc._flip_coefficients, CModel.optimize = orig_sparse, orig_flip, orig_opt
+    return ev["calls"], sorted(idx[r.id] for r in cm.reactions)
+
+
+def loop_stage(ctx):
+    """The bookkeeping of fastcc's main loop: `FastccM.fastcc` (Lean) is given the answers of the solves the real `fastcc` made and has to
+    ask for the same solves (same reactions, same flip) and keep the same reactions."""
+    rng = __import__("random").Random(f"c19-loop-{ctx.seed}-{ctx.attempt}")
+    n = ctx.scale(60, 1200)
+    lines, metas = [], []
+    errors = {}
+    for i in range(n):
+        spec = gen_tight_spec(rng) if rng.random() < 0.25 else gen_spec(rng)
+        with warnings.catch_warnings():
+            warnings.simplefilter("ignore")
+            m = coreops.build_model(spec)
+            try:
+                calls, kept = loop_trace(m)
+            except Exception as e:
+                errors[type(e).__name__] = errors.get(type(e).__name__, 0) + 1
+                if type(e).__name__ not in ("OptimizationError", "Infeasible", "Unbounded", "UndefinedSolution", "FeasibleButNotOptimal") and len(ctx.broken) < 3:
+                    ctx.broken.append({"kind": "correspondence", "name": "fastcc main loop vs FastccM.fastcc",
+                                       "detail": f"recording the solves of fastcc raised {type(e).__name__}: {e}", "spec": spec})
+                continue
+            irr = [i for i, r in enumerate(m.reactions) if not r.reversibility]
+            lines.append(json.dumps({"build": "fastccLoop", "all": list(range(len(m.reactions))), "irr": irr, "answers": [c["ans"] for c in calls]}))
+            metas.append((spec, calls, kept))
+    outs = [json.loads(l) for l in common.run_driver_persistent("auxprob", lines)] if lines else []
+    directed, bad = [], 0
+    shapes = {}
+    for (spec, calls, kept), o in zip(metas, outs):
+        shapes[len(calls)] = shapes.get(len(calls), 0) + 1
+        why = None
+        if "bad-line" in o:
+            why = o["bad-line"]
+        elif not o["complete"]:
+            why = f"the recorded solves {[(c['j'], c['flipped']) for c in calls]} are not a complete run of the modelled loop (it asked for {[(c['j'], c['flipped']) for c in o['calls']]})"
+        elif [(sorted(c["j"]), c["flipped"]) for c in o["calls"]] != [(c["j"], c["flipped"]) for c in calls]:
+            why = f"solves differ: model {[(sorted(c['j']), c['flipped']) for c in o['calls']]}, code {[(c['j'], c['flipped']) for c in calls]}"
+        elif sorted(set(o["kept"])) != kept:
+            why = f"kept reactions differ: model {sorted(set(o['kept']))}, returned model has {kept}"
+        if why:
+            bad += 1
+            if bad <= 3:
+                ctx.broken.append({"kind": "correspondence", "name": "fastcc main loop vs FastccM.fastcc", "detail": why, "spec": spec})
+            directed.append({"kind": "fastcc", "spec": spec, "pre": None, "open_exchanges": False})
+    ctx.coverage["fastcc_loop"] = {"runs_compared": len(outs), "mismatches": bad, "solves_per_run": {str(k): v for k, v in sorted(shapes.items())}, "errors": errors}
+    return directed[:8]
+
+
 def run(ctx):
     if getattr(ctx, "replay", None):
         data = json.loads(open(ctx.replay).read())
@@ -237,8 +335,8 @@ def run(ctx):
                 print(f"VIOLATION property=C19 replay={ctx.replay}")
                 return 1
         return 0
-    common.proof_stage(ctx, "CobraModel.Props.C19", extra_scan=["CobraModel/Lemmas/Formulations.lean", "CobraModel/Lemmas/LP.lean"] + auxcorr.SCAN)
-    directed = aux_stage(ctx)
+    common.proof_stage(ctx, "CobraModel.Props.C19", extra_scan=["CobraModel/Lemmas/Formulations.lean", "CobraModel/Lemmas/LP.lean", "CobraModel/Model/Fastcc.lean", "CobraModel/Lemmas/Fastcc.lean"] + auxcorr.SCAN)
+    directed = aux_stage(ctx) + loop_stage(ctx)
     rng = ctx.rng
     n = ctx.scale(200, 5000)
     ran, tries = 0, 0
